@@ -331,9 +331,9 @@ class RadioControlProtocol(HDAP):
         talker_alias_format: Optional[TalkerAliasDataFormat] = None,
         talker_alias_data: bytes = b"",
         # status change notifications
-        status_change_settings: Dict[
-            StatusChangeNotificationTargets, StatusChangeNotificationSetting
-        ] = dict(),
+        status_change_settings: Optional[
+            Dict[StatusChangeNotificationTargets, StatusChangeNotificationSetting]
+        ] = None,
         status_change_target: StatusChangeNotificationTargets = StatusChangeNotificationTargets.RESERVED,
         status_change_value: int = 0,
     ):
@@ -374,9 +374,10 @@ class RadioControlProtocol(HDAP):
             talker_alias_format
         )
         self.talker_alias_data: bytes = talker_alias_data
+        # every PDU has settings of its own (no default shared between instances, no alias of the caller's dict)
         self.status_change_settings: Dict[
             StatusChangeNotificationTargets, StatusChangeNotificationSetting
-        ] = status_change_settings
+        ] = dict(status_change_settings or {})
         self.status_change_value: int = status_change_value
         self.status_change_target: StatusChangeNotificationTargets = (
             status_change_target
